@@ -45,6 +45,15 @@ CHECKS = [
            'allocated internal ids pairwise distinct, final content equals that of some sequential order, lock free and balanced.',
       note='Callees outside the registered code objects (networkx, networkx_query) are atomic steps; memory-model effects below the GIL are '
            'out of reach. Thread bodies only import and create nodes with distinct NodeIDs. One open finding (unlocked existence scan).'),
+ dict(property_id='C03', engine='E2-enum', level='exploration',
+      technique='model checking: bounded-exhaustive enumeration of codec values (all singles, all pairs of fields x values, all-set) on the real encoders/decoders',
+      text='For each of the seven JSONField classes every value built from nothing, one (field,value), any two fields x values, and all '
+           'fields is encoded, decoded, re-encoded; one unknown key is injected at every position; update() is applied with every '
+           '(field,value). Tags, the three JSON blob classes, Gateway, PathInfo/ERO, MaintenanceInfo (all states x 5 deadline forms x 5 end '
+           'forms, pairs, finalisation, copy independence) and the four typed-tuple classes over every type name of the shipped type '
+           'files get the same treatment. Comparison is field-wise and type-sensitive, never the class\'s own __eq__.',
+      note='Coverage is all singles/pairs/all-set of the value domains listed in checks/c03.py, not all subsets; value domains are '
+           'representative (zero/false/empty/extreme/non-ASCII/quoted), not all strings.'),
 ]
 _claimed = {c['property_id'] for c in CHECKS}
 NOT_APPLICABLE = [dict(property_id=p, reason='check not built yet in this revision (work in progress; model checking applies, see DESIGN.md)')
